@@ -457,7 +457,7 @@ func (svr *Service) handleConnection(ctx context.Context, conn net.Conn, interna
 			conn.Close()
 		}
 	case *msg.NewWorkConn:
-		if err := svr.RegisterWorkConn(conn, m); err != nil {
+		if err := svr.RegisterWorkConn(conn, m, internal); err != nil {
 			conn.Close()
 		}
 	case *msg.NewVisitorConn:
@@ -616,7 +616,8 @@ func (svr *Service) RegisterControl(ctlConn net.Conn, loginMsg *msg.Login, inter
 }
 
 // RegisterWorkConn register a new work connection to control and proxies need it.
-func (svr *Service) RegisterWorkConn(workConn net.Conn, newMsg *msg.NewWorkConn) error {
+// internal tells whether the connection arrived on the internal (ssh tunnel gateway) listener.
+func (svr *Service) RegisterWorkConn(workConn net.Conn, newMsg *msg.NewWorkConn, internal bool) error {
 	xl := netpkg.NewLogFromConn(workConn)
 	ctl, exist := svr.ctlManager.GetByID(newMsg.RunID)
 	if !exist {
@@ -635,8 +636,14 @@ func (svr *Service) RegisterWorkConn(workConn net.Conn, newMsg *msg.NewWorkConn)
 	retContent, err := svr.pluginManager.NewWorkConn(content)
 	if err == nil {
 		newMsg = &retContent.NewWorkConn
-		// Check auth.
-		err = ctl.authVerifier.VerifyNewWorkConn(newMsg)
+		// Check auth. The verifier selected at login (possibly AlwaysPassVerifier for a client of the
+		// ssh tunnel gateway) only covers connections from the internal listener: a work connection
+		// from a network listener is always checked against the configured verifier.
+		authVerifier := ctl.authVerifier
+		if !internal {
+			authVerifier = svr.authVerifier
+		}
+		err = authVerifier.VerifyNewWorkConn(newMsg)
 	}
 	if err != nil {
 		xl.Warnf("invalid NewWorkConn with run id [%s]", newMsg.RunID)
